@@ -12,7 +12,8 @@
      (hypothesis [hchanges]/[rchanges]/[lchanges]); a column no honest row uses is invisible
      (C04_hjky_unused_column).  For DKLs23 the leaves psi and phi are NOT checked by the
      recipient (C04_dkls_late): only the aggregator's final verification can notice.
-   - Canetti DKG, softspoken DKLs23, CGGMP21, AOR and Lindell17 have no round model here. *)
+   - CGGMP21, Lindell17 signing and the Lindell17 DKG have no round model here.  For Canetti and
+     softspoken DKLs23 only the final check gives no_bad_output. *)
 From Coq Require Import List NArith ZArith Bool Ring.
 Import ListNotations.
 Require Import V.model.Deviate V.proofs.Deviate_proofs.
@@ -229,6 +230,55 @@ Theorem C04_dkls_no_bad_output : forall (A : alg) (ecdsa_ok : car A -> car A -> 
   dkls_aggregate A ecdsa_ok rdiv pk ps = Some (r, s) -> ecdsa_ok pk r s = true.
 Proof. exact dkls_aggregate_verifies. Qed.
 Print Assumptions C04_dkls_no_bad_output.
+
+(* ---------------- phase 3: agree-on-random, Canetti DKG, DKLs23-softspoken ---------------- *)
+
+Theorem C04_aor_bound_field_detected : forall A : alg,
+  (forall a b : car A, aeqb A a b = true <-> a = b) ->
+  forall (mu : amut A) (ck : term A) (d : N) (m : ados A) (inbox : list (N * ados A)),
+  all_pass (aor_checks A) ck d m -> achanges A mu m -> In (d, aapply A mu m) inbox ->
+  run_rounds [3]%nat (aor_checks A) ck inbox <> Accept.
+Proof. exact aor_detected. Qed.
+Print Assumptions C04_aor_bound_field_detected.
+
+(* Canetti: the round-1 commitment binds every field of the opened message (session, sender id,
+   rho, every vector entry, the Schnorr commitment) and its witness; the share by the Feldman
+   check; the proof's A by equality with the committed one, its E by the recomputed challenge, its
+   Z by the batch Schnorr equation *)
+Theorem C04_canetti_bound_field_detected : forall A : alg,
+  (forall a b : car A, aeqb A a b = true <-> a = b) ->
+  forall (mu : cmut A) (st : cst A) (d : N) (m : cdos A) (inbox : list (N * cdos A)),
+  all_pass (canetti_checks A) st d m -> cchanges A mu m -> In (d, capply A mu m) inbox ->
+  run_rounds [3; 4]%nat (canetti_checks A) st inbox <> Accept.
+Proof. exact canetti_detected. Qed.
+Print Assumptions C04_canetti_bound_field_detected.
+
+(* only the final check (mpc.NewBaseShard) gives this one *)
+Theorem C04_canetti_no_bad_output_partial : forall A : alg,
+  (forall a b : car A, aeqb A a b = true <-> a = b) ->
+  forall (st : cst A) (own_s : car A) (own_v : list (car A)) (inbox : list (N * cdos A)) (s : car A) (V : list (car A)),
+  canetti_fin A st own_s own_v inbox = Some (s, V) -> s = dot A (c_row A st) V.
+Proof. exact canetti_fin_good. Qed.
+Print Assumptions C04_canetti_no_bad_output_partial.
+
+Theorem C04_softspoken_bound_field_detected_partial : forall A : alg,
+  ring_theory (a0 A) (a1 A) (aadd A) (amul A) (asub A) (aopp A) eq ->
+  (forall a b : car A, aeqb A a b = true <-> a = b) ->
+  (forall a b : car A, amul A a b = a0 A -> a = a0 A \/ b = a0 A) ->
+  forall (mu : omut A) (st : dst A) (d : N) (m : odos A) (inbox : list (N * odos A)),
+  softspoken_class (omut_fld A mu) = Bound -> d_chi A st d <> a0 A ->
+  all_pass (softspoken_checks A) st d m -> ochanges A mu m -> In (d, oapply A mu m) inbox ->
+  run_rounds [4; 5]%nat (softspoken_checks A) st inbox <> Accept.
+Proof. exact softspoken_detected. Qed.
+Print Assumptions C04_softspoken_bound_field_detected_partial.
+
+(* psi is read by no check of the recipient in the softspoken variant either; the aggregator is
+   the same dkls23.Aggregate (C04_dkls_no_bad_output) *)
+Theorem C04_softspoken_late : forall (A : alg) (mu : omut A) (st : dst A) (id : N) (m : odos A) (c : check (dst A) (odos A)),
+  softspoken_class (omut_fld A mu) = Late -> In c (softspoken_checks A) ->
+  c_pred c st id (oapply A mu m) = c_pred c st id m.
+Proof. exact softspoken_late. Qed.
+Print Assumptions C04_softspoken_late.
 
 (* ---------------- non-vacuity ---------------- *)
 (* the integers satisfy the algebra hypotheses; an honest session inbox is accepted, a changed
